@@ -1,1 +1,1 @@
-
+pub mod ref_tsx;
